@@ -303,7 +303,8 @@ func (app *App) addPrefixToRoute(prefix string, route *Route) *Route {
 	route.routeParser = parseRoute(prettyPath, constraints...)
 	route.Params = parseRoute(prefixedPath, constraints...).params
 	checkParamCount(prefixedPath, route.routeParser.params)
-	route.root = false
+	// a mount on "/" leaves a root-level route of the sub-app a root-level route
+	route.root = prettyPath == "/"
 	route.star = false
 
 	return route
